@@ -1195,7 +1195,9 @@ func (d *Data) GetFieldCounts(ctx storage.VersionedCtx) (map[string]int64, error
 		mdb.mu.RLock()
 		fields := make(map[string]int64, len(mdb.fields))
 		for field, count := range mdb.fields {
-			fields[field] = count
+			if count > 0 { // a field no annotation uses any more is gone, as it is in the store
+				fields[field] = count
+			}
 		}
 		mdb.mu.RUnlock()
 		return fields, nil
@@ -2281,13 +2283,11 @@ func (d *Data) ServeHTTP(uuid dvid.UUID, ctx *datastore.VersionedCtx, w http.Res
 		if returnCounts {
 			result = fieldCount
 		} else {
-			fields := make([]string, len(fieldCount))
-			i := 0
+			fields := make([]string, 0, len(fieldCount))
 			for field, count := range fieldCount {
 				if count > 0 {
-					fields[i] = field
+					fields = append(fields, field)
 				}
-				i++
 			}
 			result = fields
 		}
